@@ -532,3 +532,102 @@ def ambiguous_union_case(g):
                         d["d%d" % i][f["name"]] = None if isinstance(f["type"], list) else (3 if f["type"] in ("int", "long") else "v")
         data.append(d)
     return schema, data
+
+
+# ---------------------------------------------------------------------- single mutations (C10)
+def mutate(g, s, v, ctx, ns=""):
+    """returns (kind, v') where v' is v made non-conforming by ONE mutation at a random position,
+    or None when no mutation applies at the chosen path"""
+    r = g.r
+
+    def here(s, v, ns):
+        """mutations applicable at this node"""
+        opts = []
+        if isinstance(s, list):
+            opts.append(("wrong-hint", ("NoSuchBranch__", v if not isinstance(v, tuple) else v[1])))
+            nonmatching = [x for x in (None, True, 1, 1.5, "s", b"b", [object()], {"k": object()})]
+            opts.append(("no-branch", object()))
+            return opts
+        if isinstance(s, str) and s not in PRIMS:
+            dd, dns = g.lookup(s, ctx, ns)
+            return here(dd, v, dns)
+        t = s if isinstance(s, str) else s["type"]
+        if t in PRIMS:
+            opts.append(("wrong-type", g.wrong_prim(t)))
+            if t == "int":
+                opts += [("out-of-range", r.choice([2 ** 31, -2 ** 31 - 1])), ("bool-for-int", r.choice([True, False]))]
+            if t == "long":
+                opts += [("out-of-range", r.choice([2 ** 63, -2 ** 63 - 1])), ("bool-for-int", True)]
+        elif t == "fixed":
+            opts += [("wrong-fixed-size", b"\x00" * (s["size"] + 1)), ("wrong-type", "x" * s["size"]),
+                     ("wrong-type", bytearray(s["size"]))]
+        elif t == "enum":
+            opts += [("unknown-symbol", "NOT_A_SYMBOL"), ("wrong-type", 0)]
+        elif t == "array":
+            opts += [("wrong-type", "abc"), ("wrong-type", {"a": 1}), ("wrong-type", 5)]
+        elif t == "map":
+            opts += [("wrong-type", [("k", 1)]), ("wrong-type", "abc")]
+            if isinstance(v, dict):
+                d = dict(v)
+                d[7] = r.choice(list(v.values())) if v else None
+                opts.append(("non-string-key", d))
+        elif t == "record":
+            opts += [("wrong-type", [1]), ("wrong-type", "rec")]
+            if isinstance(v, dict):
+                req = [f["name"] for f in s["fields"] if "default" not in f and f["name"] in v and
+                       not (isinstance(f["type"], list) and "null" in f["type"]) and f["type"] != "null"]
+                if req:
+                    d = dict(v)
+                    del d[r.choice(req)]
+                    opts.append(("missing-required-field", d))
+                d = dict(v)
+                d["-type"] = "Not.The.Name"
+                opts.append(("wrong-hint", d))
+        return opts
+
+    def walk(s, v, ns, depth):
+        """descend randomly; return mutated copy or None"""
+        kids = []
+        if isinstance(s, str) and s not in PRIMS:
+            dd, dns = g.lookup(s, ctx, ns)
+            return walk(dd, v, dns, depth)
+        if isinstance(s, dict) and depth > 0:
+            t = s["type"]
+            if t == "array" and isinstance(v, (list, tuple)) and v:
+                kids = [("item", i) for i in range(len(v))]
+            elif t == "map" and isinstance(v, dict) and v:
+                kids = [("val", k) for k in v]
+            elif t == "record" and isinstance(v, dict):
+                kids = [("field", f) for f in s["fields"] if f["name"] in v]
+        if isinstance(s, list) and depth > 0 and not isinstance(v, tuple) and not (isinstance(v, dict) and "-type" in v):
+            pass   # descending into an un-hinted union value would need the branch: mutate here only
+        if kids and r.random() < 0.7:
+            kind, key = r.choice(kids)
+            if kind == "item":
+                m = walk(s["items"], v[key], ns, depth - 1)
+                if m is None:
+                    return None
+                out = list(v)
+                out[key] = m[1]
+                return m[0], (tuple(out) if isinstance(v, tuple) else out)
+            if kind == "val":
+                m = walk(s["values"], v[key], ns, depth - 1)
+                if m is None:
+                    return None
+                out = dict(v)
+                out[key] = m[1]
+                return m[0], out
+            f = key
+            nsx = split_full(g.full_of(s, ns))[0]
+            m = walk(f["type"], v[f["name"]], nsx, depth - 1)
+            if m is None:
+                return None
+            out = dict(v)
+            out[f["name"]] = m[1]
+            return m[0], out
+        opts = here(s, v, ns)
+        if not opts:
+            return None
+        return r.choice(opts)
+
+    return walk(s, v, ns, 4)
